@@ -86,6 +86,10 @@ func c05Catalogue() []c05Val {
 		{"time year 10000", time.Date(10000, 1, 1, 0, 0, 0, 0, time.UTC)}, {"time year -1", time.Date(-1, 6, 1, 0, 0, 0, 0, time.UTC)},
 		{"time 9999 end west", time.Date(9999, 12, 31, 23, 59, 59, 0, time.FixedZone("w", -3600))}, {"time year 9999", time.Date(9999, 12, 31, 23, 59, 59, 0, time.UTC)},
 		{"string time 1-digit hour", "2019-10-05T9:53:17Z"}, {"string time comma fraction", "2019-10-05T09:53:17,25Z"}, {"string time offset", "2019-10-05T09:53:17.5+02:00"},
+		// floats at the very ends of the integer ranges (2^63 is what float64(math.MaxInt64) is: one more than the largest Int64)
+		{"float64 2^63", float64(math.MaxInt64)}, {"float32 2^63", float32(math.MaxInt64)}, {"float64 -2^63", float64(math.MinInt64)},
+		{"float64 below 2^63", math.Nextafter(float64(math.MaxInt64), 0)}, {"float64 below -2^63", math.Nextafter(float64(math.MinInt64), math.Inf(-1))},
+		{"[]float64 2^63", []float64{float64(math.MaxInt64), 1}}, {"float64 -2^31", float64(math.MinInt32)}, {"float64 -2^31-1", float64(math.MinInt32) - 1}, {"float64 2^31-1", float64(math.MaxInt32)},
 	}
 }
 
